@@ -28,21 +28,22 @@ type leafResult struct {
 }
 
 type workerStats struct {
-	Leaves      int64
-	Evals       int64
-	Skipped     int64
-	Transitions int64
-	Outcomes    map[uint64]struct{}
-	States      map[uint64]struct{}
-	Cover       map[string]int64
-	Violations  []foundViolation
-	Samples     []sample
-	Capped      bool
-	Nondet      []string
-	PerScenario map[string]int64
-	MaxDepth    int
-	SkipReasons map[string]int64
-	perSig      map[string]int
+	Leaves            int64
+	Evals             int64
+	Skipped           int64
+	Transitions       int64
+	Outcomes          map[uint64]struct{}
+	States            map[uint64]struct{}
+	Cover             map[string]int64
+	Violations        []foundViolation
+	Samples           []sample
+	Capped            bool
+	CPU, MaxWorkerCPU float64 // parent only: CPU seconds of the worker processes
+	Nondet            []string
+	PerScenario       map[string]int64
+	MaxDepth          int
+	SkipReasons       map[string]int64
+	perSig            map[string]int
 }
 
 type foundViolation struct {
